@@ -258,6 +258,67 @@ def regenerate_facts(cfg, exe):
     return True, out
 
 
+def build_go2coq():
+    """(Re)builds bin/go2coq (stdlib-only Go program) when its source is newer than the binary."""
+    src = os.path.join(ROOT, "go2coq", "main.go")
+    exe = os.path.join(ROOT, "bin", "go2coq")
+    with Lock("go2coq"):
+        if not os.path.exists(exe) or os.path.getmtime(exe) < os.path.getmtime(src):
+            os.makedirs(os.path.dirname(exe), exist_ok=True)
+            rc, out, dt = sh(["go", "build", "-o", exe, "."], cwd=os.path.join(ROOT, "go2coq"), env=GOENV, timeout=600)
+            if rc != 0:
+                return None, out
+    return exe, ""
+
+
+def regenerate_source(cfg, workdir):
+    """Translator half, source level: /verif/go2coq translates the functions and guards listed in the
+    property's spec from the repository's CURRENT Go sources (parsed and type-checked) into
+    Generated/<id>Source.v; <id>/SourceTie.v proves the model computes exactly those expressions.
+    For a scratch repository (VERIF_REPO) the shared Coq tree is not rewritten: if the translation
+    differs, the new file and the tie proofs are compiled in a private directory instead."""
+    g = cfg.get("go2coq")
+    if not g:
+        return True, ""
+    exe, out = build_go2coq()
+    if not exe:
+        return False, "go2coq does not build: " + out[-1500:]
+    dst = os.path.join(COQ, g["out"])
+    tmp = os.path.join(workdir, os.path.basename(g["out"]))
+    rc, out, dt = sh([exe, "-repo", REPO, "-spec", os.path.join(ROOT, g["spec"]), "-out", tmp], cwd=REPO, env=GOENV, timeout=900)
+    if rc != 0 or not os.path.exists(tmp):
+        return False, "source translation failed (the translated functions left the supported subset or no longer exist): " + out[-1500:]
+    same = os.path.exists(dst) and open(dst).read() == open(tmp).read()
+    if same:
+        return True, ""
+    if REPO == "/repo":
+        with Lock("coq"):
+            shutil.copy(tmp, dst)
+        return True, "regenerated"
+    # scratch repository: private compilation of the new translation + the tie proofs against it
+    sdir = os.path.join(workdir, "scratch_coq")
+    os.makedirs(sdir, exist_ok=True)
+    modname = os.path.basename(g["out"])[:-2]
+    shutil.copy(tmp, os.path.join(sdir, modname + ".v"))
+    files = [modname + ".v"]
+    for t in g.get("tie", []):
+        txt = open(os.path.join(COQ, t)).read()
+        txt2 = txt.replace("From Kardia Require Import Generated.%s." % modname, "From KScratch Require Import %s." % modname)
+        if txt2 == txt:
+            return False, "tie file %s does not import Generated.%s on a line of its own" % (t, modname)
+        name = "Scratch" + os.path.basename(t)
+        open(os.path.join(sdir, name), "w").write(txt2)
+        files.append(name)
+    with Lock("coq"):
+        for f in files:
+            rc, out, dt = sh(["timeout", "900", "coqc", "-Q", os.path.join(COQ, "theories"), "Kardia", "-Q", sdir, "KScratch",
+                              "-w", "-notation-overridden,-deprecated-hint-without-locality", os.path.join(sdir, f)], cwd=sdir, timeout=1000)
+            if rc != 0:
+                return False, "source tie no longer proves against the current Go source (%s):\n%s" % (f, out[-2500:])
+    return True, "scratch translation differs textually but the tie proofs still hold"
+
+
+
 # ----------------------------------------------------------------------------- compare
 
 def compare(outdir):
@@ -378,6 +439,10 @@ def check(pid, tier="quick", seed=None, replay=None):
             ok, out = regenerate_facts(cfg, exe)
             if not ok:
                 problems.append({"what": "facts-regeneration", "detail": out[-2000:]})
+        # ---- translator, source level (go2coq)
+        oks, outs = regenerate_source(cfg, workdir)
+        if not oks:
+            problems.append({"what": "source-tie", "detail": outs[-3000:]})
         # ---- Coq
         bad = coq_audit(cfg)
         want_chk = (tier == "thorough" and cfg.get("coqchk", True))
